@@ -277,6 +277,35 @@ def make_primitives(ctl, thread_namer=None):
         if to: return [], [], []
         return result()
 
+    class VirtualOS:
+        """stand-in for the `os` module of a module under test, as far as pipes go: `pipe()` hands out virtual descriptors,
+        `write`/`read` on them are yield points (`read` on an empty pipe blocks virtually, like a blocking pipe), everything
+        else is the real `os`.  Lets the REAL pox.lib.util.PipePinger run under the forced scheduler."""
+        def __init__(self):
+            import os as _os
+            self._os = _os; self._pipes = {}; self._next = 10 ** 6
+        def __getattr__(self, name): return getattr(self._os, name)
+        def pipe(self):
+            r, w = self._next, self._next + 1; self._next += 2
+            buf = [0]
+            self._pipes[r] = buf; self._pipes[w] = buf
+            return r, w
+        def pending(self, fd): return self._pipes[fd][0]
+        def write(self, fd, data):
+            if fd not in self._pipes: return self._os.write(fd, data)
+            ctl.yield_point(P("ping"))
+            self._pipes[fd][0] += len(data)
+            return len(data)
+        def read(self, fd, n):
+            if fd not in self._pipes: return self._os.read(fd, n)
+            buf = self._pipes[fd]
+            ctl.yield_point(P("pongAll"), blocked=lambda: buf[0] > 0)        # a blocking pipe: read waits for data
+            k = min(n, buf[0]); buf[0] -= k
+            return b" " * k
+        def close(self, fd):
+            if fd in self._pipes: return
+            return self._os.close(fd)
+
     class FThread:
         def __init__(self, group=None, target=None, name=None, args=(), kwargs=None, daemon=None):
             self._target, self._args, self._kwargs = target, args, kwargs or {}
@@ -311,7 +340,7 @@ def make_primitives(ctl, thread_namer=None):
     class NS: pass
     ns = NS()
     ns.Lock, ns.Event, ns.Queue, ns.Pinger, ns.select, ns.Thread = FLock, FEvent, FQueue, FPinger, fselect, FThread
-    ns.RLock, ns.P = FRLock, P
+    ns.RLock, ns.P, ns.VirtualOS = FRLock, P, VirtualOS
     ns.threading, ns.select_module = FThreading, FSelectModule
     return ns
 
